@@ -694,9 +694,25 @@ class _BoolForms(ast.NodeTransformer):
         return node
 
 
+class _ShapeCalls(ast.NodeTransformer):
+    """numpy.shape(x) / numpy.ndim(x) / numpy.size(x) on a plain name -> x.shape / x.ndim / x.size (what they return for an array)"""
+
+    def __init__(self, idx, mod, fi):
+        self.idx, self.mod, self.fi = idx, mod, fi
+
+    def visit_Call(self, n):
+        self.generic_visit(n)
+        if len(n.args) == 1 and not n.keywords and isinstance(n.args[0], ast.Name) and isinstance(n.func, (ast.Name, ast.Attribute)):
+            q = self.idx.qualname(self.mod, n.func, self.fi)
+            if q in ("numpy.shape", "numpy.ndim", "numpy.size", "numpy.ma.shape", "numpy.ma.ndim", "numpy.ma.size"):
+                return ast.copy_location(ast.Attribute(value=n.args[0], attr=q.split(".")[-1], ctx=ast.Load()), n)
+        return n
+
+
 def syntactic(idx, fi, fn):
     """the expression-level rewrites alone (safe to repeat after inlining)"""
     fn = _MapFilter(idx, fi.module, fi).generic_visit(fn)
+    fn = _ShapeCalls(idx, fi.module, fi).generic_visit(fn)
     fn = _BoolForms().generic_visit(fn)
     ast.fix_missing_locations(fn)
     return fn
